@@ -113,6 +113,14 @@ def run(prop, tier):
         exe = build(b, opt, extra, tag)
         opt = opt + tag
         p = subprocess.run([exe, '--tier', tier], stdout=subprocess.PIPE, stderr=subprocess.PIPE, text=True, timeout=3000)
+        if p.returncode in (-4, -6, -7, -8, -11):
+            # a library call faulted under some schedule (the explorer itself passes its self-test first and runs the same
+            # drivers sequentially for the reference): what was reported up to then is kept
+            res.parse(p.stdout, opt)
+            last = [l for l in p.stdout.splitlines() if l.startswith('D\t')][-1:] or ['?']
+            res.viol[('C16', 'a library call faults under some schedule (explorer killed by signal %d)' % -p.returncode)] = {
+                'count': 1, 'case': 'O:0', 'detail': 'world %s; last completed driver: %s' % (opt, last[0][:200]), 'tag': opt}
+            continue
         if p.returncode != 0 or not res.parse(p.stdout, opt):
             core.die_infra('schedule explorer (%s) failed: rc=%s %s' % (opt, p.returncode, p.stderr[-1500:]))
         for line in p.stdout.splitlines():
